@@ -64,11 +64,11 @@ void World::hs(int slot, int idx, int a) {
   if (mode == 4) { if (ntracer < NTRC) { rec[ntracer].reset(new RecTracer(this, ntracer)); ++ntracer; } return; }
   if (mode == 2 || mode == 3) {
     if (mode == 3 && a >= 2) return;
-    ++depth;
+    ++depth; int outer_fn = callfn; callfn = mode == 2 ? (int)G1 : (int)F1;
     try {
-      call_fn(callobj, mode == 2 ? (int)G1 : (int)F1, mode == 2 ? a : a + 1, 0);
-    } catch (...) { --depth; throw; }
-    --depth;
+      call_fn(callobj, callfn, mode == 2 ? a : a + 1, 0);
+    } catch (...) { --depth; callfn = outer_fn; throw; }
+    --depth; callfn = outer_fn;
   }
 }
 
@@ -85,6 +85,7 @@ std::string World::call_fn(int obj, int fn, int a1, int a2) {
         return "ref:?";
       }
       case SV1: return "s:" + x.sv(a1);
+      case CF1: { const auto& cx = x; return "r:" + std::to_string(cx.f(a1)); }
       case CR1: {
         const int& r = x.cr(a1);
         int v = r;  // reads through the returned reference: it must designate a live object (the sanitizer build checks)
@@ -174,7 +175,7 @@ Outcome World::apply(const Op& op) {
       }
       case OP_RELEASE: sort_reports = armed != 0; e[op.slot].reset(); break;
       case OP_CALL: {
-        callobj = op.obj;
+        callobj = op.obj; callfn = op.fn;
         try {
           if (op.k1 == 1) { try { throw 42; } catch (int) { o.retv = call_fn(op.obj, op.fn, op.a1, op.a2); } }  // the call is made while an exception is being handled
           else o.retv = call_fn(op.obj, op.fn, op.a1, op.a2);
@@ -334,7 +335,7 @@ Report parse_report(const World& w, const RawReport& r) {
     // first line: "No match for call of f with signature int(int) with."
     std::string head = lines[0].substr(strlen("No match for call of "));
     int fn = -1;
-    if (head == "f with signature int(int) with.") fn = F1;
+    if (head == "f with signature int(int) with.") fn = w.callfn == CF1 ? (int)CF1 : (int)F1;  // the const overload prints the same head
     else if (head == "f with signature int(int, int) with.") fn = F2;
     else if (head == "g with signature int(int) with.") fn = G1;
     else if (head == "v with signature void(int) with.") fn = V1;
